@@ -13,19 +13,26 @@ Theorem C13_tree_diff_spec :
 Proof. exact tree_diff_spec. Qed.
 Print Assumptions C13_tree_diff_spec.
 
+(* DiffMaps = differ + makeDiffCallBack: for every decoding of stored values into rows, the
+   filtered diff is the declarative diff on decoded rows (same row, two encodings: no change) *)
 Theorem C13_diff_maps_spec :
-  forall addr_eqb : node -> node -> bool,
+  forall (addr_eqb : node -> node -> bool) (dec : val -> N),
     (forall x y, addr_eqb x y = true -> x = y) ->
     forall am a b, wf_root a -> wf_root b ->
-      diff_maps addr_eqb am a b = Some (list_diff (flatten a) (flatten b)).
+      diff_maps addr_eqb dec am a b = Some (list_diff_d dec (flatten a) (flatten b)).
 Proof. exact diff_maps_spec. Qed.
 Print Assumptions C13_diff_maps_spec.
 
 (* the correspondence instantiates the address comparison with structural equality *)
 Theorem C13_diff_maps_spec_structural :
-  forall am a b, wf_root a -> wf_root b ->
-    diff_maps node_eqb am a b = Some (list_diff (flatten a) (flatten b)).
-Proof. exact (diff_maps_spec node_eqb node_eqb_sound). Qed.
+  forall dec am a b, wf_root a -> wf_root b ->
+    diff_maps node_eqb dec am a b = Some (list_diff_d dec (flatten a) (flatten b)).
+Proof. exact (fun dec => diff_maps_spec node_eqb dec node_eqb_sound). Qed.
+
+(* one encoding per row: the decoded diff is the byte-level diff *)
+Theorem C13_list_diff_d_id : forall a b, list_diff_d (fun v => v) a b = list_diff a b.
+Proof. exact list_diff_d_id. Qed.
+Print Assumptions C13_list_diff_d_id.
 Print Assumptions C13_diff_maps_spec_structural.
 
 Theorem C13_list_diff_sorted :
@@ -38,10 +45,10 @@ Proof. exact list_diff_refl. Qed.
 Print Assumptions C13_list_diff_refl.
 
 Theorem C13_key_range_diff_unbounded_partial :
-  forall addr_eqb : node -> node -> bool,
+  forall (addr_eqb : node -> node -> bool) (dec : val -> N),
     (forall x y, addr_eqb x y = true -> x = y) ->
     forall a b, wf_root a -> wf_root b ->
-      key_range_diff addr_eqb None None a b = Some (range_list_diff None None (flatten a) (flatten b)).
+      key_range_diff addr_eqb dec None None a b = Some (range_list_diff_d dec None None (flatten a) (flatten b)).
 Proof. exact key_range_diff_unbounded_partial. Qed.
 Print Assumptions C13_key_range_diff_unbounded_partial.
 
